@@ -180,4 +180,158 @@ theorem bridge_C05_clamped_surface (tol : K) (htol : 0 < tol)
     · exact ⟨(au : Int), by simp, by omega⟩
     · exact ⟨(av : Int), by simp, by omega⟩
 
+/-! ## Volumes -/
+
+/-- "`o'` evaluates like `o`" for volumes. -/
+def SameEvalVolume (tol : K) (b1 b1' b2 b2' b3 b3' : Basis K) (o o' : Obj K) : Prop :=
+  ∀ us vs ws : List K, (∀ u ∈ us, b1.Admissible tol u) → (∀ u ∈ us, b1'.Admissible tol u) →
+    (∀ v ∈ vs, b2.Admissible tol v) → (∀ v ∈ vs, b2'.Admissible tol v) →
+    (∀ w ∈ ws, b3.Admissible tol w) → (∀ w ∈ ws, b3'.Admissible tol w) →
+    ∃ res, o.evaluate tol [us, vs, ws] true = .ok res ∧
+      res.shape = [us.length, vs.length, ws.length, o.dimension] ∧
+      o'.evaluate tol [us, vs, ws] true = .ok res ∧
+      o'.evaluate tol [us, vs, ws] false = o.evaluate tol [us, vs, ws] false
+
+theorem raiseImplicit_volume_sameEval (o : Obj K) (tol : K) (htol : 0 < tol) (hw : C06.WF o 3) (au av aw : ℕ)
+    (bu' bv' bw' : Basis K) (Eu Ev Ew : ℕ → ℕ → K) (hu : DirOK tol (o.basis 0) au bu' Eu)
+    (hv : DirOK tol (o.basis 1) av bv' Ev) (hw2 : DirOK tol (o.basis 2) aw bw' Ew)
+    (hnc : o.rational = true → 1 ≤ o.ncomp) :
+    ∃ o', o.raiseOrderImplicit tol [au, av, aw] = .ok o'
+      ∧ SameEvalVolume tol (o.basis 0) bu' (o.basis 1) bv' (o.basis 2) bw' o o' := by
+  obtain ⟨pu, Niu, hgu, Hu⟩ := hu.hsw
+  obtain ⟨pv, Niv, hgv, Hv⟩ := hv.hsw
+  obtain ⟨pw, Niw, hgw, Hw⟩ := hw2.hsw
+  have heq := raiseImplicit_volume_eq o tol hw au av aw bu' bv' bw' hu.raise hv.raise hw2.raise pu pv pw
+    hgu hgv hgw Niu Niv Niw Hu Hv Hw Eu Ev Ew hu.rows hv.rows hw2.rows
+  refine ⟨_, heq, ?_⟩
+  intro us vs ws hus hus' hvs hvs' hws hws'
+  have hb := bases_of_wf3 hw
+  have hs := shape_of_wf3 hw
+  -- step 1
+  obtain ⟨_, w1', b1d, b1k, n1', r1'⟩ := renet_dirOK hw (0 : Fin 3) tol au bu' Eu hu
+  set o1 := renet o 0 bu' Eu with ho1
+  have w1 : C06.WF o1 3 := w1'
+  have n1 : o1.ncomp = o.ncomp := n1'
+  have r1 : o1.rational = o.rational := r1'
+  have hb10 : o1.basis 0 = bu' := b1d
+  have hb11 : o1.basis 1 = o.basis 1 := b1k (1 : Fin 3) (by decide)
+  have hb12 : o1.basis 2 = o.basis 2 := b1k (2 : Fin 3) (by decide)
+  have hb1 : o1.bases = #[bu', o.basis 1, o.basis 2] := by rw [bases_of_wf3 w1, hb10, hb11, hb12]
+  have hs1 : o1.cps.shape = [bu'.numFunctions, (o.basis 1).numFunctions, (o.basis 2).numFunctions, o.ncomp] := by
+    rw [shape_of_wf3 w1, hb10, hb11, hb12, n1]
+  -- step 2
+  have hv1' : DirOK tol (o1.basis ((1 : Fin 3) : ℕ)) av bv' Ev := by
+    show DirOK tol (o1.basis 1) av bv' Ev
+    rw [hb11]; exact hv
+  obtain ⟨_, w2', b2d', b2k, n2', r2'⟩ := renet_dirOK w1 (1 : Fin 3) tol av bv' Ev hv1'
+  set o2 := renet o1 1 bv' Ev with ho2
+  have w2 : C06.WF o2 3 := w2'
+  have n2 : o2.ncomp = o1.ncomp := n2'
+  have r2 : o2.rational = o1.rational := r2'
+  have hb21 : o2.basis 1 = bv' := b2d'
+  have hb20 : o2.basis 0 = bu' := (b2k (0 : Fin 3) (by decide)).trans hb10
+  have hb22 : o2.basis 2 = o.basis 2 := (b2k (2 : Fin 3) (by decide)).trans hb12
+  have hb2 : o2.bases = #[bu', bv', o.basis 2] := by rw [bases_of_wf3 w2, hb20, hb21, hb22]
+  have hs2 : o2.cps.shape = [bu'.numFunctions, bv'.numFunctions, (o.basis 2).numFunctions, o.ncomp] := by
+    rw [shape_of_wf3 w2, hb20, hb21, hb22, n2, n1]
+  -- step 3
+  have hw2' : DirOK tol (o2.basis ((2 : Fin 3) : ℕ)) aw bw' Ew := by
+    show DirOK tol (o2.basis 2) aw bw' Ew
+    rw [hb22]; exact hw2
+  obtain ⟨_, w3', b3d', b3k, n3', r3'⟩ := renet_dirOK w2 (2 : Fin 3) tol aw bw' Ew hw2'
+  set o3 := renet o2 2 bw' Ew with ho3
+  have w3 : C06.WF o3 3 := w3'
+  have n3 : o3.ncomp = o2.ncomp := n3'
+  have r3 : o3.rational = o2.rational := r3'
+  have hb32 : o3.basis 2 = bw' := b3d'
+  have hb30 : o3.basis 0 = bu' := (b3k (0 : Fin 3) (by decide)).trans hb20
+  have hb31 : o3.basis 1 = bv' := (b3k (1 : Fin 3) (by decide)).trans hb21
+  have hb3 : o3.bases = #[bu', bv', bw'] := by rw [bases_of_wf3 w3, hb30, hb31, hb32]
+  have hs3 : o3.cps.shape = [bu'.numFunctions, bv'.numFunctions, bw'.numFunctions, o.ncomp] := by
+    rw [shape_of_wf3 w3, hb30, hb31, hb32, n3, n2, n1]
+  -- transfers
+  obtain ⟨e1, res, er, esh⟩ := Bridge.transfer_volume_u hb hb1 (hw.valid 0) hu.valid' (hw.valid 1) (hw.valid 2)
+    hs hs1 r1 hnc htol rfl hus hus' hvs hws
+    (fun p hp => renet_sameAlong hw (0 : Fin 3) htol bu' hu.valid' Eu hu.rows
+      (hus _ (getD_mem_of_lt us hp 0)) (hus' _ (getD_mem_of_lt us hp 0)))
+  have hrows1 : RowsVia tol (o1.basis ((1 : Fin 3) : ℕ)) bv' (o1.basis ((1 : Fin 3) : ℕ)).numFunctions Ev := hv1'.rows
+  have hvs1 : ∀ v ∈ vs, (o1.basis ((1 : Fin 3) : ℕ)).Admissible tol v := by
+    intro v hv0
+    show (o1.basis 1).Admissible tol v
+    rw [hb11]; exact hvs v hv0
+  obtain ⟨e2, _, _, _⟩ := Bridge.transfer_volume_v (b1 := bu') (b2 := o.basis 1) (b2' := bv') (b3 := o.basis 2)
+    hb1 hb2 hu.valid' (hw.valid 1) hv.valid' (hw.valid 2) hs1 hs2 r2 (by rw [r1]; exact hnc) htol rfl hus' hvs hvs' hws
+    (fun p hp => by
+      have := renet_sameAlong w1 (1 : Fin 3) htol bv' hv.valid' Ev hrows1
+        (hvs1 _ (getD_mem_of_lt vs hp 0)) (hvs' _ (getD_mem_of_lt vs hp 0))
+      have e : o1.basis ((1 : Fin 3) : ℕ) = o.basis 1 := hb11
+      rw [e] at this
+      exact this)
+  have hrows2 : RowsVia tol (o2.basis ((2 : Fin 3) : ℕ)) bw' (o2.basis ((2 : Fin 3) : ℕ)).numFunctions Ew := hw2'.rows
+  have hws2 : ∀ v ∈ ws, (o2.basis ((2 : Fin 3) : ℕ)).Admissible tol v := by
+    intro v hv0
+    show (o2.basis 2).Admissible tol v
+    rw [hb22]; exact hws v hv0
+  obtain ⟨e3, _, _, _⟩ := Bridge.transfer_volume_w (b1 := bu') (b2 := bv') (b3 := o.basis 2) (b3' := bw')
+    hb2 hb3 hu.valid' hv.valid' (hw.valid 2) hw2.valid' hs2 hs3 r3 (by rw [r2, r1]; exact hnc) htol rfl hus' hvs' hws hws'
+    (fun p hp => by
+      have := renet_sameAlong w2 (2 : Fin 3) htol bw' hw2.valid' Ew hrows2
+        (hws2 _ (getD_mem_of_lt ws hp 0)) (hws' _ (getD_mem_of_lt ws hp 0))
+      have e : o2.basis ((2 : Fin 3) : ℕ) = o.basis 2 := hb22
+      rw [e] at this
+      exact this)
+  have etot : o3.evaluate tol [us, vs, ws] true = o.evaluate tol [us, vs, ws] true := (e3.trans e2).trans e1
+  refine ⟨res, er, esh, etot.trans er, ?_⟩
+  exact Bridge.pointwise_volume hb hb3 (hw.valid 0) hu.valid' (hw.valid 1) hv.valid' (hw.valid 2) hw2.valid' hs hs3
+    ((r3.trans r2).trans r1) hnc htol rfl rfl rfl hus hus' hvs hvs' hws hws' etot
+
+/-- **C05 ⇒ evaluate, volumes on clamped continuous bases — no analytic hypothesis.** -/
+theorem bridge_C05_clamped_volume (tol : K) (htol : 0 < tol)
+    (qu au : ℕ) (hqu : 1 ≤ qu + au) (x0u xlu : K) (umidu : List K) (mmidu : List ℕ)
+    (hlenu : umidu.length = mmidu.length) (hmu : ∀ j ∈ mmidu, 1 ≤ j ∧ j ≤ qu)
+    (hgapu : Separated (2 * ((qu + au : ℕ) : K) * tol) (clampedU x0u xlu umidu))
+    (qv av : ℕ) (hqv : 1 ≤ qv + av) (x0v xlv : K) (umidv : List K) (mmidv : List ℕ)
+    (hlenv : umidv.length = mmidv.length) (hmv : ∀ j ∈ mmidv, 1 ≤ j ∧ j ≤ qv)
+    (hgapv : Separated (2 * ((qv + av : ℕ) : K) * tol) (clampedU x0v xlv umidv))
+    (qw aw : ℕ) (hqw : 1 ≤ qw + aw) (x0w xlw : K) (umidw : List K) (mmidw : List ℕ)
+    (hlenw : umidw.length = mmidw.length) (hmw : ∀ j ∈ mmidw, 1 ≤ j ∧ j ≤ qw)
+    (hgapw : Separated (2 * ((qw + aw : ℕ) : K) * tol) (clampedU x0w xlw umidw))
+    (hnz : au ≠ 0 ∨ av ≠ 0 ∨ aw ≠ 0)
+    (o : Obj K) (hw : C06.WF o 3)
+    (hb0 : o.basis 0 = openBasis (qu+1) (clampedU x0u xlu umidu) (clampedM (qu+1) mmidu))
+    (hb1 : o.basis 1 = openBasis (qv+1) (clampedU x0v xlv umidv) (clampedM (qv+1) mmidv))
+    (hb2 : o.basis 2 = openBasis (qw+1) (clampedU x0w xlw umidw) (clampedM (qw+1) mmidw))
+    (hnc : o.rational = true → 1 ≤ o.ncomp) :
+    ∃ o', o.raiseOrder tol [(au : Int), (av : Int), (aw : Int)] none = .ok (.self, o')
+      ∧ o.raiseOrderImplicit tol [au, av, aw] = .ok o'
+      ∧ SameEvalVolume tol
+          (openBasis (qu+1) (clampedU x0u xlu umidu) (clampedM (qu+1) mmidu))
+          (openBasis (qu+1+au) (clampedU x0u xlu umidu) (clampedM (qu+1+au) (mmidu.map (· + au))))
+          (openBasis (qv+1) (clampedU x0v xlv umidv) (clampedM (qv+1) mmidv))
+          (openBasis (qv+1+av) (clampedU x0v xlv umidv) (clampedM (qv+1+av) (mmidv.map (· + av))))
+          (openBasis (qw+1) (clampedU x0w xlw umidw) (clampedM (qw+1) mmidw))
+          (openBasis (qw+1+aw) (clampedU x0w xlw umidw) (clampedM (qw+1+aw) (mmidw.map (· + aw)))) o o' := by
+  obtain ⟨Eu, _, hdu⟩ := dirOK_clamped tol htol qu au hqu x0u xlu umidu mmidu hlenu hmu hgapu
+  obtain ⟨Ev, _, hdv⟩ := dirOK_clamped tol htol qv av hqv x0v xlv umidv mmidv hlenv hmv hgapv
+  obtain ⟨Ew, _, hdw⟩ := dirOK_clamped tol htol qw aw hqw x0w xlw umidw mmidw hlenw hmw hgapw
+  rw [← hb0] at hdu
+  rw [← hb1] at hdv
+  rw [← hb2] at hdw
+  obtain ⟨o', himp, hse⟩ := raiseImplicit_volume_sameEval o tol htol hw au av aw _ _ _ Eu Ev Ew hdu hdv hdw hnc
+  have hfacu : tol ≤ 2 * ((qu + au : ℕ) : K) * tol := by
+    have h1 : (1 : K) ≤ ((qu + au : ℕ) : K) := by exact_mod_cast hqu
+    nlinarith
+  have hguard : Obj.raiseGuard tol o.bases.toList = .ok true := by
+    rw [bases_of_wf3 hw, hb0]
+    exact raiseGuard_clamped tol htol (qu+1) (by omega) x0u xlu umidu mmidu hlenu
+      (separated_mono hfacu hgapu) (fun j hj => (hmu j hj).1) _
+  refine ⟨o', ?_, himp, by rw [← hb0, ← hb1, ← hb2]; exact hse⟩
+  apply raiseOrder_of_implicit o tol _ none [(au : Int), (av : Int), (aw : Int)] o' (by simp [Obj.normRaises])
+    ?_ ?_ hguard (by simpa using himp)
+  · intro r hr; simp at hr; rcases hr with rfl | rfl | rfl <;> omega
+  · rcases hnz with h | h | h
+    · exact ⟨(au : Int), by simp, by omega⟩
+    · exact ⟨(av : Int), by simp, by omega⟩
+    · exact ⟨(aw : Int), by simp, by omega⟩
+
 end Splipy
